@@ -31,7 +31,7 @@ type c20Case struct {
 
 func (c *c20Case) Key() string { return c.Part + "|" + c.Src + "|" + strings.Join(c.Over, ",") }
 
-var c20Inline = []string{"w", " ", "*", "**", "_", "`code`", `[t](u "ti")`, "![a](s)", "<http://x.y>", "<b>", "&amp;", "&copy;", "<", "&", `\*`, `\<`, "{{ x }}", "  \n", "~~", "a < b", "\n"}
+var c20Inline = []string{"w", " ", "*", "**", "_", "`code`", `[t](u "ti")`, "![a](s)", "<http://x.y>", "<b>", "&amp;", "&copy;", "<", "&", `\*`, `\<`, "{{ x }}", "  \n", "~~", "a < b", "\n", "`a\nb`", "`x\\|y`", `[e](u\_x "t\*")`, `[q](http://a.b/?x=1&amp;y=2 "a &amp; b")`, "![a *b* <c> &amp;](s)", "<!-- c -->"}
 
 var c20Ref = goldmark.New(goldmark.WithExtensions(extension.GFM), goldmark.WithRendererOptions(ghtml.WithUnsafe()))
 
@@ -87,9 +87,11 @@ func c20Block(ctx, inline string) string {
 	case "heading":
 		return "## " + strings.ReplaceAll(inline, "\n", " ") + "\n"
 	case "item":
-		return "- " + strings.ReplaceAll(inline, "\n", " ") + "\n- second\n"
+		return "- " + strings.ReplaceAll(inline, "\n", "\n  ") + "\n- second\n"
 	case "quote":
-		return "> " + strings.ReplaceAll(inline, "\n", " ") + "\n"
+		return "> " + strings.ReplaceAll(inline, "\n", "\n> ") + "\n"
+	case "quote2":
+		return "> > " + strings.ReplaceAll(inline, "\n", "\n> > ") + "\n"
 	case "cell":
 		return "| h | k |\n|:--|--:|\n| " + strings.ReplaceAll(strings.ReplaceAll(inline, "\n", " "), "|", "") + " | c |\n"
 	case "strong":
@@ -101,7 +103,7 @@ func c20Block(ctx, inline string) string {
 var c20Blocks = []string{
 	"# H1 *em*\n", "###### H6\n", "Setext\n======\n", "para one\nsoft break\n", "```go\nx := 1 < 2 && y\n```\n", "```\nplain {{ x }}\n```\n", "    indented <b>\n",
 	"> quote\n> > nested\n", "- a\n- b\n", "1. one\n2. two\n", "3. three\n4. four\n", "- loose\n\n- items\n", "- outer\n  - inner\n", "- [ ] todo\n- [x] done\n",
-	"| a | b |\n|:-:|---|\n| 1 | 2 |\n", "---\n", "<div class=\"raw\">html *not md*</div>\n", "text with `code` and [link](http://l \"T\") and ![img](i.png)\n", "line  \nhard break\n",
+	"| a | b |\n|:-:|---|\n| 1 | 2 |\n", "---\n", "0. zero\n1. one\n", "<div>\nhtml block\n</div>\n", "<!-- comment block -->\n", "<pre>\nraw\n\n*pre*\n</pre>\n", "<div class=\"raw\">html *not md*</div>\n", "text with `code` and [link](http://l \"T\") and ![img](i.png)\n", "line  \nhard break\n",
 }
 
 var allConstructs = strings.Join(c20Blocks, "\n") + "\nauto <http://a.b> and ~~del~~ and **strong** <i>raw</i>\n"
@@ -139,6 +141,16 @@ func (c *c20Case) Run(ctx *core.Ctx) {
 				return
 			}
 			w, t := c02Diff(got, want)
+			if c.Part == "inline" {
+				// attribute to a single token when that token alone (in a paragraph) already differs
+				for _, i := range c.Tok {
+					if c20AloneFails(ctx, i) {
+						ctx.Violation("reference-mismatch", "inline/"+c20DiffKind(w), c20TokClass(c20Inline[i])+"-alone", fmt.Sprintf("src %q\nvuego %q\n ref  %q", c.Src, clip(out, 400), clip(ref, 400)))
+						return
+					}
+				}
+				where = "inline/" + c.Ctx
+			}
 			ctx.Violation("reference-mismatch", where+"/"+w, c20Trigger(c)+"/"+t, fmt.Sprintf("src %q\nvuego %q\n ref  %q\n got: %s\nwant: %s", c.Src, clip(out, 400), clip(ref, 400), oneLine(gs), oneLine(ws)))
 		}
 	case "source":
@@ -192,6 +204,27 @@ func c20Mark(tpl, name string) string {
 	return topTagRe.ReplaceAllString(tpl, `<$1 data-ov="`+name+`"`)
 }
 
+var c20AloneCache = map[int]bool{}
+
+func c20AloneFails(ctx *core.Ctx, tok int) bool {
+	if v, ok := c20AloneCache[tok]; ok {
+		return v
+	}
+	src := c20Block("para", "w"+c20Inline[tok]+"w")
+	ctx.Eval(1)
+	out, err := mdRender(nil, src)
+	bad := err != nil || htmlcmp.String(c20Project(strings.ReplaceAll(out, "</br>", ""))) != htmlcmp.String(c20Project(c20Reference(src)))
+	c20AloneCache[tok] = bad
+	return bad
+}
+
+func c20DiffKind(w string) string {
+	if i := strings.Index(w, ":"); i > 0 {
+		return w[:i]
+	}
+	return w
+}
+
 func c20Trigger(c *c20Case) string {
 	if c.Part != "inline" {
 		return "block"
@@ -228,6 +261,18 @@ func c20TokClass(t string) string {
 		return "mustache"
 	case "<b>":
 		return "rawhtml"
+	case "`a\nb`":
+		return "code-span-newline"
+	case "`x\\|y`":
+		return "code-span-pipe"
+	case `[e](u\_x "t\*")`:
+		return "link-backslash"
+	case `[q](http://a.b/?x=1&amp;y=2 "a &amp; b")`:
+		return "link-entity"
+	case "![a *b* <c> &amp;](s)":
+		return "image-alt-markup"
+	case "<!-- c -->":
+		return "html-comment"
 	case "  \n", "\n":
 		return "break"
 	}
@@ -257,7 +302,7 @@ func init() {
 				if strings.TrimSpace(in) == "" {
 					return
 				}
-				for _, cx := range []string{"para", "heading", "item", "quote", "cell", "strong"} {
+				for _, cx := range []string{"para", "heading", "item", "quote", "quote2", "cell", "strong"} {
 					emit(&c20Case{Part: "inline", Ctx: cx, Tok: append([]int(nil), tok...), Src: c20Block(cx, in)})
 				}
 			})
